@@ -71,10 +71,10 @@ GROUPS += [
     dict(name='fpath_transform', tu='src/flexpath.cpp', spec_headers=['spec/ghost.h', 'spec/geom_spec.h', 'spec/fpath_spec.h'],
          models=['models/libm_contracts.h'], harness='harness/c10_fpath.c', roots=['gdstk::FlexPath::transform'],
          entry='h_fpath_transform', enforce='FlexPath__transform', replace_extern=['cos', 'sin'], replace_extern_if_called=['fabs'], defines={'VF_FABS_CONTRACT': 1},
-         kind='bounded', unwind=4, timeout=900, tier='quick', uf_fp=True, apply_loop_contracts=False, loop_contracts_for=[],
+         kind='bounded', unwind=4, timeout=2400, tier='thorough', uf_fp=True, apply_loop_contracts=False, loop_contracts_for=[], solver='cadical',
          bound='0..2 spine points, 0..2 path elements (loops unwound, unwinding assertions on); all doubles, both reflection states, scale_width on and off'),
 ]
-GROUPS += [dict(GROUPS[-1], name='fpath_transform_11', defines={'VF_FABS_CONTRACT': 1, 'VF_FP_MAXN': 1, 'VF_FP_MAXNE': 1}, unwind=3,
+GROUPS += [dict(GROUPS[-1], name='fpath_transform_11', tier='quick', timeout=900, defines={'VF_FABS_CONTRACT': 1, 'VF_FP_MAXN': 1, 'VF_FP_MAXNE': 1}, unwind=3,
                 bound='0..1 spine points, 0..1 path elements (loops unwound, unwinding assertions on); all doubles, both reflection states, scale_width on and off')]
 TRUSTED_BASE = ['clang 14 AST', 'tools/cxx2c.py lowering', 'cbmc 6.11.0 (dfcc + SAT)', 'side-car contracts; spec/geom_spec.h']
 ASSUMPTIONS = ['cos and sin and the double operations + - * are uninterpreted functions (sound over-approximation: what holds for arbitrary functions holds for IEEE arithmetic)',
